@@ -14,12 +14,12 @@ CLAIMED = {
          "DESIGN.md section 5 C12"),
  "C13": ("exploration",
          "runtime oracle: independent reference hashes/partitioners + sequential-law monitor + porcupine linearizability check of recorded concurrent Balance histories",
-         "Every built-in balancer is executed on generated keys (all lengths 0..67, nil/empty, high-bit, long) x 33 partition counts and compared with independently written FNV-1a/CRC-32/murmur2 + Sarama/librdkafka/Java partitioner formulas; Hash and ReferenceHash are also driven through a constant-sum Hasher over boundary (0, 2^31-1, 2^31, 2^32-1 ...) and random 32-bit codes; RoundRobin/LeastBytes are checked call by call against their sequential law and, under concurrency, by porcupine on recorded call/return histories. Held on the executions listed in the evidence; not a proof over all keys.",
+         "Every built-in balancer is executed on generated keys (all lengths 0..67, nil/empty, high-bit, long) x 33 partition counts and compared with independently written FNV-1a/CRC-32/murmur2 + Sarama/librdkafka/Java partitioner formulas; Hash and ReferenceHash are also driven through a constant-sum Hasher over boundary (0, 2^31-1, 2^31, 2^32-1 ...) and random 32-bit codes; RoundRobin/LeastBytes are checked call by call against their sequential law, every balancer value is also offered partition lists whose length changes from call to call (several topics behind one Writer, growing partition counts: the answer must be in the list offered now) and, under concurrency, by porcupine on recorded call/return histories. Held on the executions listed in the evidence; not a proof over all keys.",
          "trusted: harness transcriptions of the reference clients' formulas; porcupine v1.3.0; partition lists are contiguous 0..n-1 as a Writer supplies them",
          "DESIGN.md section 5 C13"),
  "C01": ("exploration",
          "runtime monitor: offline oracle (R1-R5) over the fake brokers' journal, the byte-level wire tap and the recorded WriteMessages/Completion/Balancer history of a real kafka.Writer under seeded fault scripts",
-         "Thousands of seeded Writer scenarios (1-4 brokers, produce v2-v8, every codec, sync/async, 1-8 concurrent callers, lost acks, cuts at byte k, temporary/permanent codes, leader moves, slow responses) are executed against an in-memory cluster; afterwards every nil/WriteErrors entry and every Completion is matched against acknowledged attempts (applied + answered OK + response delivered in full), every stored record against the recorded balancer choice, every duplicate against a lost acknowledgement. Held on the executions run; interleavings are sampled, not enumerated.",
+         "Thousands of seeded Writer scenarios (1-4 brokers, produce v2-v8, every codec, sync/async, 1-8 concurrent callers, lost acks, cuts at byte k, temporary/permanent codes, leader moves, slow responses; a second list with calls that BatchBytes splits over several batches whose produce requests end differently) are executed against an in-memory cluster; afterwards every nil/WriteErrors entry and every Completion is matched against acknowledged attempts (applied + answered OK + response delivered in full), every stored record against the recorded balancer choice, every duplicate against a lost acknowledgement. Held on the executions run; interleavings are sampled, not enumerated.",
          "trusted: fakenet's delivery accounting, the fake broker's atomic append, refcodec's strict record decoder; scenarios in which the client itself reported a deadline error are only judged for the clauses that do not depend on who won the race with the deadline",
          "DESIGN.md section 5 C01"),
  "C07": ("exploration",
@@ -39,7 +39,7 @@ CLAIMED = {
          "DESIGN.md section 5 C14"),
  "C16": ("exploration",
          "runtime differential oracle: library codecs vs reference decoders/encoders (stdlib gzip, golang/snappy + eapache xerial, pierrec/lz4 v2, klauspost zstd) over payload x chunking x read-size x pooled-object history prefixes, plus 32-goroutine use",
-         "Every codec variant (31) is driven over boundary payload sizes, write chunkings and read plans, with the pooled readers/writers first dragged through random histories (complete, abandoned, truncated, corrupted streams, failing sinks); outputs must round-trip, be readable by the reference decoder and reference-encoded streams must be read back exactly.",
+         "Every codec variant (31) is driven over boundary payload sizes, write chunkings and read plans, with the pooled readers/writers first dragged through random histories (complete, abandoned, truncated, corrupted streams, failing sinks, closed once or twice); two writers and two readers of one codec value open at once on one goroutine must not share state; 32 goroutines use one codec value at once (a quarter of those cases with small payloads, hundreds of rounds and 16 Ps); outputs must round-trip, be readable by the reference decoder and reference-encoded streams must be read back exactly.",
          "trusted: the reference libraries (zstd shares klauspost with the library: stated); pool reuse is observed by pointer identity, not forced",
          "DESIGN.md section 5 C16"),
  "C02": ("exploration",
@@ -54,7 +54,7 @@ CLAIMED = {
          "DESIGN.md section 5 C03"),
  "C15": ("exploration",
          "runtime monitor: timeline of Next / Start / function begin / cancellation / end recorded at the API boundary, checked against the fake coordinator's journal of JoinGroup / SyncGroup / Heartbeat / LeaveGroup (one logical clock, client write stamps from the wire tap)",
-         "A real kafka.ConsumerGroup runs application loops with functions that return at once, on cancellation, late after cancellation or after k ms, under coordinator error codes and dropped connections on every group API, forced rebalances, evictions, topic growth under the partition watcher, slow applications (Start on an already ended generation) and Close at random points; a second list closes the group while a formed generation is fetched, not yet fetched or being fetched, with 3 s / 4 s heartbeat and watch intervals, and takes a goroutine census 500 ms after Close returned; checked: Next never returns a generation while a function of the previous one runs, contexts are done before the member re-joins, heartbeat rate bounds, LeaveGroup before Close returns, ErrGroupClosed afterwards, join back-off lower bound.",
+         "A real kafka.ConsumerGroup runs application loops with functions that return at once, on cancellation, late after cancellation or after k ms, under coordinator error codes and dropped connections on every group API, forced rebalances, evictions, topic growth under the partition watcher, slow applications (Start on an already ended generation) and Close at random points; a second list closes the group while a formed generation is fetched, not yet fetched or being fetched, with 3 s / 4 s heartbeat and watch intervals, and takes a goroutine census 500 ms after Close returned; checked: Next never returns a generation while a function of the previous one runs, contexts are done before the member re-joins, heartbeat rate bounds, LeaveGroup before Close returns, ErrGroupClosed afterwards, join back-off lower bound; a third list lets the watched topic grow after polls of the partition watcher were answered with error codes or dropped and requires the running function's context to be cancelled (at most two answers with the new count delivered before that; within 2 s).",
          "trusted: fake coordinator; heartbeat rate and back-off are bounds that load can only lengthen; functions started after the following Next call are outside the claim",
          "DESIGN.md section 5 C15"),
  "C04": ("exploration",
@@ -68,13 +68,13 @@ CLAIMED = {
          "trusted: refcodec record codecs and its reference compression libraries; unset times only need to lie within a day of the run; the Conn path is not asked to verify checksums or hide control records (statement)",
          "DESIGN.md section 5 C05"),
  "C11": ("fault_enumeration",
-         "runtime differential monitor, enumerated completely: (Conn operation, negotiated version, error field, error code, following operation) on the faulted connection vs a fresh connection against an identical fake broker; plus no-fault sequences and damaged frames",
-         "Every pair of kafka.Conn operations (14 operations incl. partial batch reads and short-buffer reads) is run with the first one answered by each of 12 error codes in each error field of each negotiable version (and without fault); the second operation's value digest and error class on the same Conn must equal those on a fresh Conn. Damaged frames (wrong correlation id, wrong length, trailing garbage) must never yield a value that differs from the fresh connection's.",
+         "runtime differential monitor, enumerated completely: (Conn operation, negotiated version, error field, error code, following operation) on the faulted connection vs a fresh connection against an identical fake broker; plus no-fault sequences, error-coded responses delivered in two pieces with a pause longer than the deadline at every byte position, and damaged frames",
+         "Every pair of kafka.Conn operations (14 operations incl. partial batch reads and short-buffer reads) is run with the first one answered by each of 12 error codes in each error field of each negotiable version (and without fault); the second operation's value digest and error class on the same Conn must equal those on a fresh Conn. Every error-coded response is also delivered in two pieces split at every byte with a pause longer than the first operation's deadline on an otherwise healthy connection: a reported broker code means the second operation behaves as on a fresh Conn, a reported transport error means it fails. Damaged frames (wrong correlation id, wrong length, trailing garbage) must never yield a value that differs from the fresh connection's.",
          "trusted: the fake broker answers deterministically; an error placed in a field the operation does not surface may leave it successful",
          "DESIGN.md section 5 C11"),
  "C17": ("fault_enumeration",
-         "runtime monitor with complete enumeration of cut positions: every byte offset of the sample response of every (path, operation/api, version) x ending (EOF, ECONNRESET; thorough: silence), through kafka.Conn and through Transport.RoundTrip; plus a fixed Reader and Writer scenario with the first fetch/produce response cut at every byte judged by the C02/C01/C07 oracles",
-         "The undisturbed response of every kafka.Conn operation (18 operations incl. fetches of logs whose last batch is gzip / snappy / lz4 / zstd compressed, every negotiable version) and of 23 APIs x every mutually supported version through the Transport is measured, then the call is repeated once per cut position and ending: it must return an error (fetch: a prefix of the complete records then an error) or exactly the undisturbed result, within its deadline, without panic; the Conn must be dead afterwards; the Transport must not reuse the cut connection and the same call must succeed on a new one.",
+         "runtime monitor with complete enumeration of cut positions: every byte offset of the sample response of every (path, operation/api, version) x ending (EOF, ECONNRESET; thorough: silence), through kafka.Conn and through Transport.RoundTrip; plus a fixed Reader and Writer scenario with the first fetch/produce response cut at every byte judged by the C02/C01/C07 oracles; plus the server tokens of a SCRAM authentication cut at every byte with the mechanism wrapped in a recorder of the challenges it is handed",
+         "The undisturbed response of every kafka.Conn operation (18 operations incl. fetches of logs whose last batch is gzip / snappy / lz4 / zstd compressed, every negotiable version) and of 23 APIs x every mutually supported version through the Transport is measured, then the call is repeated once per cut position and ending: it must return an error (fetch: a prefix of the complete records then an error) or exactly the undisturbed result, within its deadline, without panic; the Conn must be dead afterwards; the Transport must not reuse the cut connection and the same call must succeed on a new one. The server-first and server-final tokens of a SCRAM-SHA-256 exchange (Transport and Dialer, raw and framed) are cut at every byte: the operation must fail and the sasl.StateMachine must only ever see complete server tokens.",
          "trusted: one sample response per (path, api, version) - other contents are sampled by C01/C02 with random cuts; the silence ending relies on the client's own deadline",
          "DESIGN.md section 5 C17"),
  "C18": ("exploration",
@@ -89,12 +89,12 @@ CLAIMED = {
          "DESIGN.md section 5 C06"),
  "C09": ("exploration",
          "runtime monitor: call/return timeline of Close, WriteMessages, FetchMessage/ReadMessage, CommitMessages and Transport.RoundTrip with Completion callbacks, the fake brokers' request journal after Close returned, open fakenet connections per owner and the goroutine profile filtered to library frames",
-         "Writers (sync/async, 1-8 callers, batch timers 1 ms..10 min, retries and back-off, slow / silent / unreachable brokers), group and partition Readers (rebalances in progress, blocked fetches, commits in flight) and Transports are closed or have their contexts cancelled at seeded points; Close and cancelled calls must return within a bound derived from the configured timeouts, every accepted message must be sent or have exhausted its attempts with its Completion run before Close returns, after Close WriteMessages fails with io.ErrClosedPipe and FetchMessage/ReadMessage with io.EOF, the group was left, no request is journaled after Close returned, no library goroutine and no connection of the closed object remains.",
+         "Writers (sync/async, 1-8 callers, batch timers 1 ms..10 min, retries and back-off, slow / silent / unreachable brokers), group and partition Readers (rebalances in progress, blocked fetches, commits in flight) and Transports (broker silent on the request, or only on the forced metadata refresh after CreateTopics / auto-creating Metadata) are closed or have their contexts cancelled at seeded points; Close and cancelled calls must return within a bound derived from the configured timeouts, every accepted message must be sent or have exhausted its attempts with its Completion run before Close returns, after Close WriteMessages fails with io.ErrClosedPipe and FetchMessage/ReadMessage with io.EOF, the group was left, no request is journaled after Close returned, no library goroutine and no connection of the closed object remains.",
          "trusted: bounds are wall-clock (configured time-outs <= 200 ms against a 20 s bound) and a breach is only reported after it repeats on an idle re-run; goroutines are attributed to the library by stack frames; cases run one at a time per process",
          "DESIGN.md section 5 C09"),
  "C10": ("exploration",
          "Go race detector (verifrun built with -race -tags verif, GORACE halt_on_error=0 log_path per shard) over generated concurrent client programs per documented type plus the scenario engines of C02/C03/C05/C06/C09/C15; reports are parsed, attributed by the innermost frames of the two accesses and deduplicated by function pair; a tracker records which method pairs were in flight together",
-         "k goroutines each run a random sequence from the menu of exported methods of Conn (+ Batches shared between goroutines, also after Close), Writer (WriteMessages/Stats/Close under the C01 fault scripts), Reader with and without group (FetchMessage/ReadMessage/CommitMessages/SetOffset/Offset/Lag/Stats/Close under cuts and error codes), Client and Transport (8 Client methods, raw RoundTrips of 23 APIs, CloseIdleConnections, short idle and metadata TTLs), every built-in Balancer and every compression codec from 32 goroutines. Every deduplicated report in which kafka-go code takes part is a violation. Held on the executions run: the detector only sees accesses that were executed.",
+         "k goroutines each run a random sequence from the menu of exported methods of Conn (+ Batches shared between goroutines, also after Close), Writer (WriteMessages/Stats/Close under the C01 fault scripts), Reader with and without group (FetchMessage/ReadMessage/CommitMessages/SetOffset/Offset/Lag/Stats/Close under cuts and error codes), Client and Transport (8 Client methods, raw RoundTrips of 23 APIs, CloseIdleConnections, short idle and metadata TTLs), every built-in Balancer and every compression codec from 32 goroutines (including writers on failing sinks and readers on cut streams closed twice). Every deduplicated report in which kafka-go code takes part is a violation. Held on the executions run: the detector only sees accesses that were executed.",
          "trusted: the Go race detector (no false positives; misses races between accesses that did not both execute); reports whose two accesses are both harness code fail the run as a harness error; Reader.SetOffsetAt/ReadLag/Config are not driven",
          "DESIGN.md section 5 C10"),
  "C19": ("exploration",
